@@ -794,7 +794,7 @@ class KernelCpu:
                         value._buffer.context, ContextCpu
                     ), f"Incompatible context for argument `{arg.name}`."
                     return self.ffi_interface.cast(
-                        value._c_type + "*",
+                        dtype2ctype(value._itemtype._dtype) + "*",
                         self.ffi_interface.from_buffer(
                             value._buffer.buffer[
                                 value._offset + value._data_offset :
